@@ -1429,7 +1429,15 @@ func (vm *VM) run() (Addr, bool) {
 					}
 				default:
 					if kind == reflect.Pointer {
-						v = v.Elem()
+						if v.IsNil() {
+							if c != 0 {
+								panic(errNilPointer)
+							}
+							// Only the length of the array is used.
+							v = reflect.Zero(v.Type().Elem())
+						} else {
+							v = v.Elem()
+						}
 					}
 					length := v.Len()
 					for i := range length {
